@@ -188,6 +188,11 @@ def generate(st):
             # (raise), it must not answer with another date
             t0_, t1_ = _d(c['t0']), _d(c['t1'])
             near = (t0_ + datetime.timedelta(days=g.randrange(0, 45))) if g.random() < 0.5 else (t1_ - datetime.timedelta(days=g.randrange(0, 45)))
+            if g.random() < 0.35:
+                # a listing of business days that starts (or ends) with the calendar's very first (last) days
+                a_ = (t0_ + datetime.timedelta(days=g.choice([0, 0, 1, 2, 3, 5]))) if g.random() < 0.6 else (t1_ - datetime.timedelta(days=g.choice([0, 1, 2, 3, 5, 9])))
+                b_ = a_ + datetime.timedelta(days=g.choice([0, 0, 1, 2, 4, 9]))
+                return {'op': 'q', 'on': target, 'kind': 'edge', 't': _iso(a_), 't2': _iso(min(b_, t1_)), 'n': 0, 'adj': None, 'via': 'drange'}
             return {'op': 'q', 'on': target, 'kind': 'edge', 't': _iso(near), 'n': g.choice([-40, -21, -10, -5, -2, 2, 5, 10, 21, 40]),
                     'adj': g.choice([None, 'f', 'p', 'm']), 'via': g.choice(['add', 'dt_bump'])}
         kind = g.choice(cfg['queries'])
@@ -265,12 +270,23 @@ def generate(st):
                 # default (weekend Sat/Sun, no holidays, 1900..2300) -- also when what IS given is an empty list
                 c = dict(old, hol=([] if g.random() < 0.5 else [h for h in c['hol'] if old['t0'] <= h <= old['t1']]) if via == 'only_hol' else [],
                          weekend=[5, 6] if via == 'only_hol' else g.choice(WEEKENDS))
-            if via == 'args' and g.random() < 0.3:
+            dropped = None
+            if via == 'args' and g.random() < 0.25 and len(set(old['hol'])) >= 2 and len(old['hol']) == len(set(old['hol'])):
+                # same range, same weekend, as many entries as before, every one of them a holiday before too - but one date is
+                # gone and another is listed twice
+                hs = sorted(set(old['hol']))
+                dropped = g.choice(hs)
+                keep = [h for h in hs if h != dropped]
+                c = dict(old, hol=keep + [g.choice(keep)])
+                g.shuffle(c['hol'])
+            elif via == 'args' and g.random() < 0.3:
                 c = dict(old, hol=c['hol'])       # same range and weekend, other holidays
                 c['hol'] = [h for h in c['hol'] if old['t0'] <= h <= old['t1']]
             ops.append(dict(op='register', key=key, via=via, **c))
             current['key:' + key] = c
             # queries land right after the re-registration
+            if dropped is not None:
+                ops.append({'op': 'q', 'on': 'key:' + key, 'kind': g.choice(['is_bday', 'is_holiday', 'adjust']), 't': dropped, 'tform': 'datetime', 'adj': 'f'})
             for _ in range(g.choice([1, 2, 3])):
                 ops.append(query('key:' + key))
             if g.random() < 0.35:
@@ -427,6 +443,23 @@ def execute(trace, ctx=None):
                 if cal is None:
                     continue
             t = _d(op['t'])
+            if op['kind'] == 'edge' and op.get('via') == 'drange':
+                t2 = _d(op['t2'])
+                if (ref.t1 - ref.t0).days > 40000 or not (ref.t0 <= t <= t2 <= ref.t1) or ref.long_run(t) or ref.long_run(t2):
+                    continue
+                x_, y_ = ref.adjust(t), ref.adjust(t2)
+                if not (ref.t0 <= x_ <= ref.t1 and ref.t0 <= y_ <= ref.t1):
+                    continue            # the adjusted endpoint falls off the calendar: nothing is promised
+                exp = ref.drange(t, t2)
+                try:
+                    got = cal.drange(t, t2, '1b')
+                except Exception as e:
+                    raise Violation('unexpected-exception', '%s.drange(%s, %s) raised %s: %s although both adjusted endpoints lie inside the range' % (target, op['t'], op['t2'], type(e).__name__, e), k)
+                if list(got) != exp:
+                    raise Violation('drange', '%s.drange(%s, %s) at the edge of the range = %s..(%d days), expected %s..(%d days)' % (target, op['t'], op['t2'], list(got)[:3], len(got), exp[:3], len(exp)), k)
+                res.probe('drange-at-range-edge')
+                warmed[target] = True
+                continue
             if op['kind'] == 'edge':
                 if not (ref.t0 <= t <= ref.t1) or not ref.is_bday(t) or ref.long_run(t) or ((ref.t1 - ref.t0).days > 40000 and k % 4):
                     continue
